@@ -60,6 +60,10 @@ public:
         refill(1);
         return *m_data++;
     }
+
+    bool more() {
+        return refill(1);
+    }
 };
 
 // M1 (assignment instead of append), M2 (piece not kept), M4 (pop with another length, read after pop), E1 (no end-of-input test)
@@ -84,6 +88,11 @@ public:
         pop(size + 1);
         out.append(m_buffer, 0, size);
         return out;
+    }
+
+    void skip(std::size_t size) {
+        ensure(size);
+        pop(size);
     }
 };
 
